@@ -104,7 +104,7 @@ void record(Ev e) {
     bool park;
     {
         std::lock_guard<std::mutex> g(gLogMu);
-        if (e.site == "gr_pub") gSharedTokens.insert(e.val);
+        if (e.site == "gr_pub" || e.site == "gr_build") gSharedTokens.insert(e.val);   // known before it can become visible
         if (gRecording && tIndex >= 0) {
             e.q = ++gSeq;
             bool priv = (e.site == "map_alloc" || e.site == "map_done" || e.site == "ci_tok") && !gSharedTokens.count(e.obj);
@@ -302,7 +302,7 @@ int probe() {
 // ------------------------------------------------------------------------------------------------
 struct Mismatch { json cls; std::string why; };
 
-bool isInternal(const std::string& a) { return a == "ci_read" || a == "gr_map" || a == "sp_const" || a == "spg_get" || a == "gpc" || a == "gpu"; }
+bool isInternal(const std::string& a) { return a == "ci_read" || a == "gr_map" || a == "sp_const" || a == "sp_find" || a == "spg_get" || a == "gpc" || a == "gpu"; }
 
 struct Replayer {
     long long cases = 0, steps = 0, compared = 0, mismatches = 0, reinit = 0;
@@ -421,6 +421,21 @@ struct Replayer {
                 // the shared token is completed by its first user, after publication and outside any lock: report once, then let
                 // the thread proceed to the step the specification expects so that the rest of the behaviour is still checked
                 if (!lazyReported) { lazyReported = true; mism(kind, a, got, "a published shared range token is still being built by its user (match map created lazily, no lock held)", st); }
+                if (got == "map_alloc") {
+                    // the thread is parked right after 'fMap = allocate(..)': the controller (one more thread, its own RegularExpression
+                    // object) now uses the same category escape - a positive observation if it gets other answers than the baseline
+                    int slot = 0, seenRet = 0;
+                    for (size_t q = 0; q < k; q++) if (h[q][0] == t && h[q][1] == "ret") seenRet++;
+                    if (seenRet < (int)progs[t - 1].size()) slot = progs[t - 1][seenRet]["s"];
+                    if (slot > 0) {
+                        long long d = useSlot(slot);
+                        compared++;
+                        counts["halfbuilt_probe"]++;
+                        if (d != gBaselineSlot[slot])
+                            mism(kind, "gr_use=1", "half-built", "POSITIVE OBSERVATION: another thread matching \\P{" + std::string(kSlotName[slot]) +
+                                 "} while the first user is inside RangeToken::doCreateMap gets digest " + std::to_string(d) + " instead of " + std::to_string(gBaselineSlot[slot]), st);
+                    }
+                }
                 k--; steps--; counts["act:" + a]--;
                 continue;
             }
@@ -630,7 +645,10 @@ void vOp(VWorld& w, std::mt19937& rng, Fnv& f, int tix, int& uriCounter) {
         std::string doc = "<root xmlns='urn:c17'>";
         int n = 1 + rng() % 3;
         for (int i = 0; i < n; i++) {
-            std::string uri = "urn:new:" + std::to_string(tix) + ":" + std::to_string(uriCounter++ % 6) + ":" + std::to_string(rng() % 3);
+            // 24 URIs shared by all threads (first use of the same URI collides) + 2 per thread; checkUriHashes() makes sure the
+            // hook's string hash tells them apart
+            (void)uriCounter;
+            std::string uri = (rng() % 4) ? "urn:new:" + std::to_string(rng() % 24) : "urn:own:" + std::to_string(tix) + ":" + std::to_string(rng() % 2);
             doc += "<item code='" + std::string(rng() % 3 ? "A12" : "a12") + "'><x:y xmlns:x='" + uri + "'>z</x:y></item>";
         }
         doc += "</root>";
@@ -687,6 +705,16 @@ void vOp(VWorld& w, std::mt19937& rng, Fnv& f, int tix, int& uriCounter) {
     }
 }
 
+bool checkUriHashes(int N) {
+    std::set<XMLSize_t> seen;
+    std::vector<std::string> all;
+    for (int i = 0; i < 24; i++) all.push_back("urn:new:" + std::to_string(i));
+    for (int t = 1; t <= N; t++) for (int i = 0; i < 2; i++) all.push_back("urn:own:" + std::to_string(t) + ":" + std::to_string(i));
+    for (const char* fixed : {"urn:c17", "", "http://www.w3.org/2001/XMLSchema", "http://www.w3.org/2001/XMLSchema-instance", "http://www.w3.org/XML/1998/namespace", "http://www.w3.org/2000/xmlns/"}) all.push_back(fixed);
+    for (auto& u : all) if (!seen.insert(XMLString::hash(X(u).c(), 1000003)).second) return false;
+    return true;
+}
+
 unsigned long long runWorkload(VWorld& w, int tix, unsigned seed, int steps) {
     std::mt19937 rng(seed * 7919u + tix * 104729u + 17u);
     Fnv f;
@@ -731,7 +759,7 @@ void writeTrace(const std::string& path, long long scanBase) {
                 int sl = slotOf(e); j["obj"] = sl;
                 if (s == "gr_fast") { lastSlot[e.t] = sl; j["val"] = e.val; }
                 if (s == "gr_slow") j["val"] = e.val;
-                if (s == "gr_pub") tokSlot[e.val] = sl;
+                if (s == "gr_pub" || s == "gr_build") tokSlot[e.val] = sl;
             } else if (s == "map_alloc" || s == "map_done") { j["obj"] = tokSlot.count(e.obj) ? tokSlot[e.obj] : 0; }
             else if (s == "ci_tok") { continue; }
             else if (s == "gr_use") { j["obj"] = lastSlot.count(e.t) ? lastSlot[e.t] : 0; j["val"] = e.val; }
@@ -766,6 +794,7 @@ void writeTrace(const std::string& path, long long scanBase) {
 int vMode(int argc, char** argv) {
     int N = atoi(argv[2]); unsigned seed = (unsigned)atoi(argv[3]); int steps = atoi(argv[4]); std::string path = argv[5];
     platformUp();
+    if (!checkUriHashes(N)) { fprintf(stderr, "workload URIs collide under the hook's string hash\n"); return 3; }
     VWorld w;
     tIndex = 0;
     long long base;
